@@ -26,7 +26,7 @@ NOTE = ("Both sides are real textX components; no reference of mine is involved.
         "'accepted by the syntax phase'.")
 
 EXPRS = {
-    "re-lead-blank": "/ x/", "re-adjacent": "/x//y/", "re-blank-then-slashes": "/ //x/", "re-blank-only": "/ /", "re-star-inside": "/x /* y/",
+    "re-double-backslash-slash": "/a\\\\/b/", "re-backslash-other": "/a\\d\\/b/", "re-lead-blank": "/ x/", "re-adjacent": "/x//y/", "re-blank-then-slashes": "/ //x/", "re-blank-only": "/ /", "re-star-inside": "/x /* y/",
     "str1": "'a'", "str2": '"a"', "str-esc": "'a\\'b'", "re": "/x+/", "re-slash": "/a\\/b/", "ref": "R", "base": "INT", "group": "( R )",
     "group-choice": "( 'a' | R )", "not": "!'a' 'b'", "and": "&R R", "sup-str": "'a'-", "sup-ref": "R-", "sup-group": "( 'a' R )-",
     "star": "R*", "plus": "'a'+", "opt": "R?", "ugrp": "( 'a' R )#", "star-sep": "R*[',']", "plus-resep": "R+[/,|;/]", "star-eol": "R*[eolterm]",
